@@ -49,6 +49,8 @@ def _occurrences(d0, d1, wd):
     while d <= d1:
         if wd is None or d.weekday() == wd:
             out.append(d)
+        if d == _dt.date.max:
+            break
         d += _dt.timedelta(days=1)
     return out
 
@@ -244,12 +246,27 @@ def _calendar_tabulate(ctx, cls: str) -> None:
                                     args = [unit] + ([nth] if nth is not None else []) + [wd]
                                     yield (f"{which}_of({unit}{'' if nth is None else ', ' + str(nth)}, {wd}) from {d} {rl}{wl}", w, recv, args, want, None)
 
+    def edge_cases(which):
+        """the first and the last month, quarter and year of the calendar (0001-01, 9999-12): nothing lies before / after them - an occurrence
+        the unit does not hold is still 'not in the unit' (PendulumException for nth_of), not an arithmetic error"""
+        w = calstub.World(m, cls, extra=extra)
+        for d in (_dt.date(1, 1, 17), _dt.date(9999, 12, 17)):
+            for unit, nths in (("month", (2, 4, 5, 6)), ("quarter", (2, 13, 14, 15)), ("year", (2, 52, 53, 54))):
+                lo, hi = _unit_bounds(d, unit)
+                for wd in range(7):
+                    occ = _occurrences(lo, hi, wd)
+                    for nth in (nths if which == "nth" else (None,)):
+                        want = (occ[0] if which == "first" else occ[-1]) if nth is None else (occ[nth - 1] if nth <= len(occ) else "raise")
+                        for rl, recv in receivers(w, d)[:1]:
+                            args = [unit] + ([nth] if nth is not None else []) + [wd]
+                            yield (f"{which}_of({unit}{'' if nth is None else ', ' + str(nth)}, {wd}) from {d} {rl}", w, recv, args, want, None)
+
     import itertools
     run("next", itertools.chain(nav_cases(True), invalid_cases(), missing_day_cases(True)))
     run("previous", itertools.chain(nav_cases(False), invalid_cases(), missing_day_cases(False)))
-    run("first_of", occ_cases("first"))
-    run("last_of", occ_cases("last"))
-    run("nth_of", occ_cases("nth"))
+    run("first_of", itertools.chain(occ_cases("first"), edge_cases("first")))
+    run("last_of", itertools.chain(occ_cases("last"), edge_cases("last")))
+    run("nth_of", itertools.chain(occ_cases("nth"), edge_cases("nth")))
     ctx.count(f"calendar_cases_{cls}", stats["n"])
 
 
